@@ -619,7 +619,11 @@ func (w *world) checkReplica(rep *replica, when string) {
 	sort.Strings(eh)
 	th := rep.heads()
 	if strings.Join(eh, ",") != strings.Join(th, ",") {
-		w.r.Fail("heads-mismatch", "", "%s (%s): head storage says %s, tree says %s", rep.name, when, shorts(eh), shorts(th))
+		sig := ""
+		if w.opts.auth && w.lostHeadsOutsideCommonSnapshot(rep, strings.Join(eh, ","), strings.Join(th, ",")) {
+			sig = "head-outside-common-snapshot" // the recorded finding of C02 seen through a rebuilt tree
+		}
+		w.r.Fail("heads-mismatch", sig, "%s (%s): head storage says %s, tree says %s", rep.name, when, shorts(eh), shorts(th))
 	}
 	for _, h := range th {
 		if _, ok := byId[h]; !ok {
